@@ -148,3 +148,113 @@ func valueOf(in ssa.Instruction) ssa.Value {
 	v, _ := in.(ssa.Value)
 	return v
 }
+
+// c08NoneIsInvalid (R19): the helpers of css/validation report "not recognised" with the zero value of a struct
+// type that has an IsNone method (Point, Dimension …).  Converted to the CssProperty interface that zero value is a
+// non-nil property: a validator that returns such a helper's result must test IsNone first and return nil, or the
+// invalid declaration is kept — and read as zeros.  For every function registered in the validators table, each
+// returned interface made from a struct value with an IsNone method that comes from a call is reached only where
+// IsNone() of that value was false.
+func c08NoneIsInvalid(c *core.Check) {
+	p := c.Prog
+	r := c.Rule("R19", "none is invalid: in every validator of the validators table, a returned property made from a call result whose type has an IsNone method is dominated by the false side of IsNone() on that result (the zero value the helpers use for 'not recognised' must become nil, not a value)", 3)
+	tab, err := p.Table("css/validation", "validators")
+	if err != nil {
+		r.Anchor("css/validation.validators: " + err.Error())
+		return
+	}
+	seen := map[*ssa.Function]bool{}
+	n := 0
+	for _, e := range tab {
+		f, ok := e.ValObj.(*types.Func)
+		if !ok {
+			continue
+		}
+		fn := p.SSA.FuncValue(f)
+		if fn == nil || fn.Blocks == nil || seen[fn] {
+			continue
+		}
+		seen[fn] = true
+		k := 0
+		core.Instrs(fn, func(in ssa.Instruction) {
+			ret, ok := in.(*ssa.Return)
+			if !ok || len(ret.Results) == 0 {
+				return
+			}
+			mi, ok := ret.Results[0].(*ssa.MakeInterface)
+			if !ok {
+				return
+			}
+			call, ok := mi.X.(*ssa.Call)
+			if !ok {
+				return
+			}
+			// the type has an IsNone method
+			ms := p.SSA.MethodSets.MethodSet(mi.X.Type())
+			has := false
+			for i := 0; i < ms.Len(); i++ {
+				if ms.At(i).Obj().Name() == "IsNone" {
+					has = true
+				}
+			}
+			if !has {
+				return
+			}
+			// the callee is a helper of css/validation that can answer with the zero value of the struct
+			callee := call.Call.StaticCallee()
+			if callee == nil || callee.Pkg == nil || core.Rel(callee.Pkg.Pkg.Path()) != "css/validation" || !returnsZeroStruct(callee) {
+				return
+			}
+			n++
+			k++
+			key := fmt.Sprintf("%s | returned %s #%d", core.FuncName(fn), typeName(mi.X.Type()), k)
+			tested := false
+			for _, b := range fn.Blocks {
+				if len(b.Instrs) == 0 {
+					continue
+				}
+				ifi, ok := b.Instrs[len(b.Instrs)-1].(*ssa.If)
+				if !ok {
+					continue
+				}
+				for _, a := range core.IfCondAtoms(ifi.Cond) {
+					c2, ok := a.(*ssa.Call)
+					if !ok {
+						continue
+					}
+					callee := c2.Call.StaticCallee()
+					if callee == nil || callee.Name() != "IsNone" || len(c2.Call.Args) != 1 {
+						continue
+					}
+					if c2.Call.Args[0] != ssa.Value(call) && valueText(c2.Call.Args[0]) != valueText(call) {
+						continue
+					}
+					if s := b.Succs[1]; ifi.Cond == ssa.Value(c2) && (s == ret.Block() || s.Dominates(ret.Block())) {
+						tested = true
+					}
+				}
+			}
+			r.Cond(tested, key, p.Pos(ret.Pos()), "returned only where IsNone() is false", "the result of "+core.CalleeName(call)+" is returned without an IsNone test: for a value the helper does not recognise the validator returns a non-nil zero property, the invalid declaration is kept and read as zeros")
+		})
+	}
+	if n == 0 {
+		r.Unknown("css/validation.validators | returned structs with IsNone", "-", "none found")
+	}
+}
+
+// returnsZeroStruct: some return of fn yields the zero value of a struct type as its first result.
+func returnsZeroStruct(fn *ssa.Function) bool {
+	found := false
+	core.Instrs(fn, func(in ssa.Instruction) {
+		ret, ok := in.(*ssa.Return)
+		if !ok || len(ret.Results) == 0 {
+			return
+		}
+		if k, ok := ret.Results[0].(*ssa.Const); ok && k.Value == nil {
+			if _, isStruct := k.Type().Underlying().(*types.Struct); isStruct {
+				found = true
+			}
+		}
+	})
+	return found
+}
